@@ -186,6 +186,10 @@ func randMsg(r *rand.Rand) string {
 		return "|" + randFrom(r, []string{"m", "s", "g", " ", "x"}, 1, 5)
 	case 6:
 		return "|" + randFrom(r, []string{"必", "填", "龥", "一", "m", " "}, 1, 5)
+	case 9:
+		// text outside the CJK block the label test looks for: just below / above it, Hangul, full-width
+		// punctuation, emoji, invalid UTF-8
+		return "|" + randFrom(r, []string{"\u4dff", "\u9fa6", "한", "！", "😀", "﷼", "\xff", "m", " "}, 1, 4)
 	case 7:
 		return "|" + pick(r, []string{"m", "中", "=", "1"})
 	case 8:
